@@ -274,6 +274,11 @@ func (w *Workspace) updateFileLocked(path, content string) {
 	if w.rootJournalPath == "" || w.index == nil {
 		return
 	}
+	if path != w.rootJournalPath && w.loader != nil && int64(len(content)) > w.loader.Limits().MaxFileSizeBytes {
+		// the include loader refuses such a file: it is not (or no longer) part of the view
+		w.removeFileLocked(path)
+		return
+	}
 	adopted := false
 	if w.index.FileIndex(path) == nil {
 		// A file the workspace has not indexed yet did not exist when the members'
@@ -314,6 +319,10 @@ func (w *Workspace) updateFileLocked(path, content string) {
 func (w *Workspace) RemoveFile(path string) {
 	w.mu.Lock()
 	defer w.mu.Unlock()
+	w.removeFileLocked(path)
+}
+
+func (w *Workspace) removeFileLocked(path string) {
 	if path == "" || path == w.rootJournalPath || w.index == nil {
 		return
 	}
